@@ -55,6 +55,40 @@ func c10(r *Report) {
 		return isBin
 	}), Check: CallCheck(Fn(ds, "event", "before"), -1, IsTrue)})
 	c10InsertCoversFront(r, p.Func(ds, "eventList", "insert"))
+	// one ordering: the sort keys of an event (Clock, SigningTime, Ref) are compared nowhere but in event.before — a second,
+	// hand-written comparison (a "fast path" that looks at clock and time only) is a second, different order
+	var cmps []Site
+	clockV, timeV, refV := FieldV("event", "Clock"), FieldV("event", "SigningTime"), FieldV("event", "Ref")
+	p.EachInstr(func(fn *ssa.Function, in ssa.Instruction) {
+		if !strings.Contains(p.FuncName(Outer(fn)), ds+".") {
+			return
+		}
+		switch x := in.(type) {
+		case *ssa.BinOp:
+			switch x.Op {
+			case token.LSS, token.GTR, token.LEQ, token.GEQ, token.EQL, token.NEQ:
+				if clockV.M(x.X) || clockV.M(x.Y) {
+					cmps = append(cmps, Site{Fn: fn, Instr: in, Pos: in.Pos(), Note: "compares event.Clock"})
+				}
+			}
+		case *ssa.Call:
+			f := x.Call.StaticCallee()
+			if f == nil || f.Signature.Recv() == nil || len(x.Call.Args) < 2 {
+				return
+			}
+			switch f.Name() {
+			case "Before", "After", "Equal", "Compare":
+				if f.Pkg != nil && f.Pkg.Pkg.Path() == "time" && (timeV.M(x.Call.Args[0]) || timeV.M(x.Call.Args[1])) {
+					cmps = append(cmps, Site{Fn: fn, Instr: in, Pos: in.Pos(), Note: "compares event.SigningTime"})
+				}
+				if f.Name() == "Compare" && (refV.M(x.Call.Args[0]) || refV.M(x.Call.Args[1])) {
+					cmps = append(cmps, Site{Fn: fn, Instr: in, Pos: in.Pos(), Note: "orders by event.Ref"})
+				}
+			}
+		}
+	})
+	r.Own(OwnSpec{ID: "C10.order.single-comparator", Op: "compare the sort keys of two events", Sites: cmps, Min: 4,
+		Owners: map[string]string{"(vdr/didnuts/didstore.event).before": "the one total order"}})
 	tb := CallEffect(Fn("std:time", "Time", "Before"))
 	r.Gate(Gate{ID: "C10.total-order.time-compared-only-for-equal-clocks.not-greater", Fn: before, Effect: tb, Check: CmpCheck("e.Clock > other.Clock is false", token.LSS, PathV("other.Clock"), PathV("e.Clock"), false)})
 	r.Gate(Gate{ID: "C10.total-order.time-compared-only-for-equal-clocks.not-less", Fn: before, Effect: tb, Check: CmpCheck("e.Clock < other.Clock is false", token.LSS, PathV("e.Clock"), PathV("other.Clock"), false)})
@@ -64,6 +98,63 @@ func c10(r *Report) {
 	c10MetaRefPositional(r, p.Func(ds, "", "writeEventList"))
 	c10ConflictDelta(r, p.Func(ds, "store", "applyFrom"))
 	c10TwoPhase(r, p.Func(ds, "store", "Add"))
+	// (8) the conflicted shelf is consulted for EVERY insert, also one that sorts before all stored events (fix: only under
+	// base != nil, so a creation arriving after two parallel updates counted the DID twice)
+	{
+		rule := "ORDER: in applyFrom the read of the conflicted shelf dominates every applyEvent call (it is not nested under `base != nil`)"
+		key := "C10.conflict-count.shelf-read-on-every-insert"
+		af := p.Func(ds, "store", "applyFrom")
+		if af == nil {
+			r.Lost(key, rule, "applyFrom not found")
+		} else {
+			key += " @ " + p.FuncName(af)
+			name, _ := p.ConstValue(ds, "conflictedShelf")
+			var gets []ssa.Instruction
+			for _, b := range af.Blocks {
+				for _, in := range b.Instrs {
+					c, ok := in.(*ssa.Call)
+					if !ok || !c.Common().IsInvoke() || c.Common().Method.Name() != "Get" {
+						continue
+					}
+					w, isW := StripConv(c.Common().Value).(*ssa.Call)
+					if !isW || !w.Common().IsInvoke() || (w.Common().Method.Name() != "GetShelfWriter" && w.Common().Method.Name() != "GetShelfReader") {
+						continue
+					}
+					if sv, isS := ConstString(w.Common().Args[0]); isS && sv == strings.Trim(name, "\"") {
+						gets = append(gets, c)
+					}
+				}
+			}
+			applies := Calls(af, Fn(ds, "", "applyEvent"))
+			r.Sites += len(gets) + len(applies)
+			ok := len(gets) > 0 && len(applies) > 0
+			for _, a := range applies {
+				dom := false
+				for _, g := range gets {
+					if InstrDominates(g, a) {
+						dom = true
+					}
+				}
+				ok = ok && dom
+			}
+			if ok {
+				r.OK(key, rule, p.Pos(af.Pos()), "the shelf read dominates applyEvent", true)
+			} else {
+				r.Bad(key, rule, p.Pos(af.Pos()), "applyEvent is reachable without the conflicted shelf having been read (e.g. only read when the new event has a predecessor)")
+			}
+		}
+	}
+	// (9) what is written was marshalled successfully (fix: the error was dropped; an unrepresentable signing time wiped the history)
+	marshal := ErrCheck(Fn("std:encoding/json", "", "Marshal"))
+	put := CallEffect(Callee{Desc: "shelf.Put", M: func(cc *ssa.CallCommon) bool { return cc.IsInvoke() && cc.Method.Name() == "Put" }})
+	r.Gate(Gate{ID: "C10.write.event-list-marshalled", Fn: p.Func(ds, "", "writeEventList"), Effect: put, Check: marshal})
+	r.Gate(Gate{ID: "C10.write.metadata-marshalled", Fn: p.Func(ds, "", "applyEvent"), Effect: put, Check: marshal})
+	// (7) the in-memory copy of a conflicted document is overwritten on every call: its metadata (source transactions,
+	// update time) changes even when the merged document hash does not
+	r.EveryPath("C10.conflict-cache.always-refreshed", p.Func(ds, "store", "addCachedConflict"), "conflictedDocuments[id] = {document, metadata}", func(in ssa.Instruction) bool {
+		mu, ok := in.(*ssa.MapUpdate)
+		return ok && FieldV("store", "conflictedDocuments").M(mu.Map)
+	})
 }
 
 // c10TwoPhase: the document (and its transaction index) is written in its own write transaction, which has committed
